@@ -31,6 +31,15 @@ def class_level_locations(prog):
             for t in tg or []:
                 if isinstance(t, ast.Attribute) and isinstance(t.value, ast.Name) and t.value.id in class_names:
                     rebound.setdefault((t.value.id, t.attr), []).append(n)
+                # cls.X = ... in a method of the class, type(self).X = ..., self.__class__.X = ...
+                own = getattr(f, "_class", None)
+                if own is not None and isinstance(t, ast.Attribute):
+                    v = t.value
+                    via_cls = (isinstance(v, ast.Name) and v.id == "cls") or \
+                        (isinstance(v, ast.Attribute) and v.attr == "__class__") or \
+                        (isinstance(v, ast.Call) and call_name(v) == "type")
+                    if via_cls:
+                        rebound.setdefault((own.name, t.attr), []).append(n)
     for m, q, c in prog.all_classes():
         is_enum = any((dotted(b) or "").split(".")[-1] == "Enum" for b in c.bases)
         if is_enum:
